@@ -1202,6 +1202,8 @@ func (fc *FuncCtx) scanCall(ci ssa.CallInstruction, fr *Frame, ws *writeSet, dep
 						}
 					}
 				}
+			case v.modifiesHeapKey(m) != "":
+				ws.globals[v.modifiesHeapKey(m)] = true
 			default:
 				unsupported("modifies clause %s of %s not understood", m, key)
 			}
